@@ -9,7 +9,10 @@ def shape_set(ck):
     return shapes
 
 def replay(L, shape, vals):
-    out, _ = run_native(L.native(), shape_text(shape, vals) + "----\n")
+    try:
+        out, _ = run_native(L.native(), shape_text(shape, vals) + "----\n", timeout=20)
+    except subprocess.TimeoutExpired:
+        return 'native assembler did not terminate within 20 s', [('hang', 'native run timed out')]
     line = out.strip().split('\n')[0] if out.strip() else 'error no output'
     return line, concrete_check(L, shape, vals, line)
 
@@ -40,7 +43,10 @@ def run_family(ck, pid, extra_shapes=()):
             # replay against the real assembler (text -> Lexer -> Parser -> CodeGen -> emitBin)
             line, bad = replay(L, res['shape'], vals)
             if cat in ('hang', 'crash', 'uninit', 'partial-output'):
-                confirmed = True if cat in ('hang', 'uninit', 'partial-output') else bool(bad) or line.startswith('error')
+                confirmed = True if cat in ('uninit', 'partial-output') else (any(c == 'hang' for c, w in bad) if cat == 'hang' else bool(bad) or line.startswith('error'))
+                if cat == 'hang' and not confirmed:
+                    # the engine's budget is far below what the native assembler can do in 20 s: a native run that finishes refutes the hang
+                    confirmed = False
             else:
                 confirmed = any(c == cat for c, w in bad)
             rp = ck.replay_file(key, {'source': shape_text(res['shape'], vals), 'native': line[:400], 'native_oracle_failures': bad[:6], 'engine_finding': what})
